@@ -37,6 +37,9 @@ type erConfig struct {
 	Scripts   []script `json:"scripts"`
 	AbortResp int      `json:"abort_resp"` // released while dying: 0 = normal result, 1 = error, 2 = Retry{}
 	Order     []int    `json:"order,omitempty"` // order in which the tasks are added to the change (nil = index order)
+	// AbortMix: every release of a dying handler may answer either as AbortResp says or with Retry{} (event
+	// "completeR"): the reference space for restarts, where a crash interrupts exactly the handlers running then
+	AbortMix bool `json:"abort_mix,omitempty"`
 }
 
 func (c *erConfig) String() string {
@@ -70,7 +73,7 @@ func (e erEvent) String() string {
 	switch e.Kind {
 	case "ensure":
 		return fmt.Sprintf("Ensure%v", e.Perm)
-	case "complete", "resolve":
+	case "complete", "resolve", "completeR":
 		return fmt.Sprintf("%s(t%d)", e.Kind, e.T)
 	}
 	return e.Kind
@@ -137,6 +140,7 @@ type world struct {
 	problems []string
 	starts   []string // log of handler starts since last restart: "t1/do"
 	crashes  int
+	forceRetry map[int]bool
 }
 
 // close to the real clock: notice expiry inside the state compares with time.Now() directly
@@ -242,6 +246,10 @@ func (w *world) gated(i int, phase string) HandlerFunc {
 func (w *world) result(i int, phase string, tb *tomb.Tomb) error {
 	dying := tb.Err() != tomb.ErrStillAlive
 	if w.dead {
+		return &Retry{}
+	}
+	if dying && w.forceRetry[i] {
+		delete(w.forceRetry, i)
 		return &Retry{}
 	}
 	if dying {
